@@ -448,6 +448,14 @@ class X86_64Arch(Architecture):
                         arg, RmMemDisp(rbp, stack_offset + 16)
                     )
                     stack_offset += arg_loc.size
+                elif isinstance(arg, registers.Register16):
+                    yield bits16.MovRegRm(
+                        arg, RmMemDisp(rbp, stack_offset + 16)
+                    )
+                    stack_offset += arg_loc.size
+                elif isinstance(arg, registers.Register8):
+                    yield MovRegRm8(arg, RmMemDisp(rbp, stack_offset + 16))
+                    stack_offset += arg_loc.size
                 elif isinstance(arg, StackLocation):
                     # Store memcpy action for later:
                     # cps.append((arg.offset, stack_offset, arg.size))
@@ -520,6 +528,17 @@ class X86_64Arch(Architecture):
                 yield RegisterUseDef(
                     uses=(registers.eax,), defs=(registers.rax,)
                 )
+                yield Push(rax)
+            elif isinstance(push_reg, registers.Register16):
+                # The upper bits of the eight byte slot are not specified:
+                yield self.move(registers.ax, push_reg)
+                yield RegisterUseDef(
+                    uses=(registers.ax,), defs=(registers.rax,)
+                )
+                yield Push(rax)
+            elif isinstance(push_reg, registers.Register8):
+                yield self.move(al, push_reg)
+                yield RegisterUseDef(uses=(al,), defs=(registers.rax,))
                 yield Push(rax)
             elif isinstance(push_reg, StackLocation):
                 # Invoke massive memcpy action!
